@@ -26,7 +26,7 @@ from ..tlc import TLCError
 INV = ["RoundTripIsIdentity", "DefsSuffice", "NamePatternsDisjoint"]
 
 
-class Timeout(Exception):
+class Timeout(BaseException):     # not an Exception: code under test (sympy) that catches Exception must not swallow the alarm
     pass
 
 
